@@ -19,7 +19,7 @@ RULE = (
     "(several nodes per host); externally provisioned or not; preserve-install on/off; race known to the race store or not; remote "
     "daemons already registered or joining at {0, 0.5, 3, 9} s in any order, optionally an unrelated daemon; per-message delays from "
     "{0, 1/1024, 0.25, 2, 7} s; zero or one fault: the launcher of the k-th host raises, or a remote daemon leaves the convention at "
-    "{0.25, 1, 4, 9.5, 12} s during start-up; or (no failure) a remote daemon goes away 0-2 s after all node mechanics of its machine have confirmed the stop. Non-trivial = >= 2 hosts with >= 1 remote and acknowledgements (NodesStarted) arriving in "
+    "{0.25, 1, 4, 9.5, 12} s during start-up; or (no failure) a remote daemon goes away 0-2 s after all node mechanics of its machine have confirmed the stop; per node what has become of its process by the time the engine is stopped (alive, died during the benchmark, gone at the moment it is terminated, does not react to SIGTERM), stopped by the real ProcessLauncher.stop on scripted psutil processes. Non-trivial = >= 2 hosts with >= 1 remote and acknowledgements (NodesStarted) arriving in "
     "an order different from the order in which StartNodes was sent, or a fault that fired. Distinct = distinct canonical JSON."
 )
 ASSUMPTIONS = [
@@ -51,6 +51,8 @@ def _case(draw):
         "joins": {str(ip): draw(st.sampled_from([-1, 0, 1, 2, 3])) for ip in remote_ips},
         "unrelated": draw(st.sampled_from([None, None, 0, 1, 2])),
         "delays": draw(st.lists(st.integers(0, 5), min_size=1, max_size=10)),
+        # what has become of the nodes' processes when the engine is stopped (cycled over the nodes in start order; see engine.PROC_STATES)
+        "proc_states": draw(st.lists(st.integers(0, 5), min_size=1, max_size=6)),
         "fault": None,
     }
     kind = draw(st.sampled_from(["none", "none", "start-fails", "start-fails", "daemon-leaves", "daemon-leaves", "daemon-leaves-after-stop"]))
@@ -158,6 +160,24 @@ def run_case(case, obs):
             obs.check(len(cl) == n_nodes and all(x["preserve"] == case["preserve"] for x in cl), "cleanup", f"{e['ip']}: {len(cl)} clean-ups for {n_nodes} nodes, flags {[x['preserve'] for x in cl]} (preserve={case['preserve']})")
             if "store-close" in kinds and cl:
                 obs.check(kinds.index("store-close") < kinds.index("cleanup") and i_stop < kinds.index("store-close"), "stop-order", f"{e['ip']}: {kinds}")
+            # ---- per node (the real ProcessLauncher.stop on scripted processes): a process that is still there is terminated exactly once
+            # (kill -9 once if it does not go away), and the system metrics of *every* started node are stored exactly once, before the flush -
+            # also of a node whose process has died during the benchmark
+            t_stop = seq[i_stop]["t"]
+            mine = [x for x in log.events if x["proc"] == e["proc"] and x["t"] >= t_stop]
+            t_flush = first_flush["t"] if first_flush is not None else float("inf")
+            for node in e["nodes"]:
+                pid, st_ = e["pids"][node], e["states"][node]
+                sysm = [x for x in mine if x["kind"] == "node-system-metrics" and x["node"] == node]
+                obs.check(len(sysm) == 1 and sysm[0]["t"] <= t_flush, "node-system-metrics", f"{e['ip']} {node} (process {st_}): system metrics stored {len(sysm)} times before the flush ({[x['t'] for x in sysm]}, flush at {t_flush})")
+                term = len([x for x in mine if x["kind"] == "node-terminate" and x["pid"] == pid])
+                kill = len([x for x in mine if x["kind"] == "node-kill" and x["pid"] == pid])
+                want = {"alive": (1, 0), "hangs": (1, 1), "gone": (0, 0), "gone-at-terminate": (0, 0)}[st_]
+                obs.check((term, kill) == want, "node-stop-count", f"{e['ip']} {node} (process {st_}): terminated {term} times, killed {kill} times, expected {want}")
+                if st_ != "alive":
+                    obs.cls(f"node-process:{st_}")
+                    if len(e["nodes"]) >= 2 and any(e["states"][o] == "alive" for o in e["nodes"]):
+                        obs.cls("dead-or-hanging-node-next-to-a-live-one")
     else:
         kind = fault["kind"]
         obs.cls(f"fired:{kind}")
@@ -176,6 +196,10 @@ def run_case(case, obs):
         for e in started_ok:
             s = by_launcher.get(e["launcher"], [])
             obs.check(len(s) <= 1, "stop-count", f"launcher on {e['ip']} stopped {len(s)} times")
+            for node, pid in e["pids"].items():
+                term = len([x for x in log.events if x["kind"] == "node-terminate" and x["pid"] == pid])
+                kill = len([x for x in log.events if x["kind"] == "node-kill" and x["pid"] == pid])
+                obs.check(term <= 1 and kill <= 1, "node-stop-count", f"{e['ip']} {node}: terminated {term} times, killed {kill} times")
     # ---- classes
     if any(ip != 0 for ip, _, _ in case["nodes"]):
         obs.cls("remote-host")
